@@ -287,7 +287,7 @@ def number(ctx, terminator=never):
     raise reports.RecoverableError("Local label, not a number")
 
 
-radix50_chars = Parser.regex("[" + re.escape(radix50.TABLE.replace(" ", "")) + "]+", skip_whitespace_before=False)
+radix50_chars = Parser.regex("(?a)[" + re.escape(radix50.TABLE.replace(" ", "")) + "]+", skip_whitespace_before=False)
 
 @Parser
 def radix50_literal(ctx):
